@@ -102,17 +102,44 @@ def run(chk):
                     if not ok:
                         oracle_bad.append(dict(info, op=op, expected=np.asarray(want).tolist(), observed=np.asarray(got).tolist()))
                 distinct.add((kname, scls.__name__, inc, n1, n2, nt))
+                # a first step taken with include_mean=False: the child is the process with mean K(.,X1) alpha (no prior mean);
+                # its mean function reproduces its stored mean, and conditioning it again uses that mean
+                try:
+                    c1n = gp1.condition(J(y1), J(x2), diag=J(d2), include_mean=False).gp
+                    K11 = np.asarray(kern(J(x1), J(x1))) + np.diag(d1)
+                    a1 = np.linalg.solve(K11, y1 - mfun(x1))
+                    K12 = np.asarray(kern(J(x1), J(x2)))
+                    K1t = np.asarray(kern(J(x1), J(xt)))
+                    mu2, mut_ = K12.T @ a1, K1t.T @ a1
+                    Kc22 = np.asarray(kern(J(x2), J(x2))) - K12.T @ np.linalg.solve(K11, K12) + np.diag(d2)
+                    Kc2t = np.asarray(kern(J(x2), J(xt))) - K12.T @ np.linalg.solve(K11, K1t)
+                    c2n = c1n.condition(J(y2), J(xt), include_mean=True).gp
+                    for op, got, want in (("no-mean child: stored mean", np.asarray(c1n.loc), mu2),
+                                          ("no-mean child: mean function at its inputs", np.asarray(jax.vmap(c1n.mean_function)(J(x2))), mu2),
+                                          ("no-mean child: mean function at new inputs", np.asarray(jax.vmap(c1n.mean_function)(J(xt))), mut_),
+                                          ("no-mean child re-conditioned: mean", np.asarray(c2n.loc),
+                                           mut_ + Kc2t.T @ np.linalg.solve(Kc22, y2 - mu2))):
+                        ok, dv = close(got, want, 1e-7)
+                        if not ok:
+                            oracle_bad.append(dict(info, op=op, expected=np.asarray(want).tolist(), observed=np.asarray(got).tolist()))
+                except Exception as e:  # noqa: BLE001
+                    oracle_bad.append(dict(info, op="first step with include_mean=False", observed=f"raised {type(e).__name__}: {str(e)[:100]}",
+                                           expected="a process"))
                 # three-step history on the dense solver
                 if scls is DirectSolver and n2 >= 2:
                     h = n2 // 2
-                    lpa, ca = gp1.condition(J(y1), J(x2[:h]), diag=J(d2[:h]))
-                    lpb, cb = ca.condition(J(y2[:h]), J(x2[h:]), diag=J(d2[h:]))
-                    lpc, cc = cb.condition(J(y2[h:]), J(xt), include_mean=True)
-                    for op, got, want in (("3-step mean", np.asarray(cc.loc), Kat.T @ sol + mt),
-                                          ("3-step total log probability", float(lpa) + float(lpb) + float(lpc), want_lp)):
-                        ok, dv = close(np.atleast_1d(got), np.atleast_1d(want), 1e-7)
-                        if not ok:
-                            oracle_bad.append(dict(info, op=op, expected=np.asarray(want).tolist(), observed=np.asarray(got).tolist()))
+                    try:
+                        lpa, ca = gp1.condition(J(y1), J(x2[:h]), diag=J(d2[:h]))
+                        lpb, cb = ca.condition(J(y2[:h]), J(x2[h:]), diag=J(d2[h:]))
+                        lpc, cc = cb.condition(J(y2[h:]), J(xt), include_mean=True)
+                        for op, got, want in (("3-step mean", np.asarray(cc.loc), Kat.T @ sol + mt),
+                                              ("3-step total log probability", float(lpa) + float(lpb) + float(lpc), want_lp)):
+                            ok, dv = close(np.atleast_1d(got), np.atleast_1d(want), 1e-7)
+                            if not ok:
+                                oracle_bad.append(dict(info, op=op, expected=np.asarray(want).tolist(), observed=np.asarray(got).tolist()))
+                    except Exception as e:  # noqa: BLE001
+                        oracle_bad.append(dict(info, op="three-step conditioning history", split=h,
+                                               observed=f"raised {type(e).__name__}: {str(e)[:100]}", expected="a process"))
                 # model correspondence of the child's kernel / mean function objects (dense parent)
                 if scls is DirectSolver:
                     K11n = np.asarray(kern(J(x1), J(x1)))
